@@ -95,7 +95,7 @@ Proof.
     - destruct (take 4 rest0) as [[x rs]|]; discriminate.
     - destruct (take 4 rest0) as [[x rs]|]; [|discriminate]. destruct (read_digits _ _ _ _ _) as [[v rs']|]; discriminate.
     - destruct (take 16 rest0) as [[x rs]|]; discriminate.
-    - destruct (take 4 rest0) as [[x rs]|]; [|discriminate]. destruct (nth_error r0 _) as [[t|]|]; discriminate.
+    - destruct (take 4 rest0) as [[x rs]|]; [|discriminate]. destruct (nth_N r0 _) as [[t|]|]; discriminate.
     - destruct (take _ rest0) as [[x rs]|]; [|discriminate]. destruct (take _ rs) as [[s rs']|]; discriminate.
     - destruct (take 1 rest0) as [[x rs]|]; [|discriminate].
       pose proof (parse_items_np sub Hs f (le_decode x) rs r0 []) as H. destruct (parse_items sub f (le_decode x) rs r0 []) as [[[i rs'] rr]| | |]; try discriminate; contradiction.
